@@ -10,6 +10,7 @@ import (
 	"encoding/json"
 	"fmt"
 	"os"
+	"runtime"
 	"runtime/debug"
 	"testing"
 	"time"
@@ -36,6 +37,7 @@ func vrtRunOne(v vrtVector) (res *vrtRun) {
 		defer close(done)
 		res.sched = vrtNewSched(v.Sched)
 		vrtS = res
+		vrtGoroutineBase = runtime.NumGoroutine()
 		defer func() {
 			if r := recover(); r != nil {
 				if af, ok := r.(vrtAssumeFailed); ok {
